@@ -92,6 +92,9 @@ var batchSizes = []int{0, 1, 1, 2, 2, 3, 3, 5, 8, 13, 20, 40}
 
 func (w *World) genBatchSize() int {
 	c := w.r.ch
+	if w.Cfg.Many {
+		return []int{0, 1, 2, 3, 5}[c.Choose(5, "batch.size")]
+	}
 	den := w.LargeDen
 	if den == 0 {
 		den = 60
